@@ -160,6 +160,44 @@ def seeded_raw(dist, M, bp, g):
     raise ValueError(dist)
 
 
+# VariationalQF.tla part "qu": structure / conditioning of q(u) (QClasses) x number of inducing points relative to the iteration cap of
+# the Lanczos eigenvalue estimate (MSizes; QuM must equal MOf of the spec, compared with TLC's states on every run)
+QU_CLASSES = ("nearprior", "diag", "dense", "ill")
+QU_M = dict(below=16, above=24)
+QU_SPECTRUM = dict(diag=2.0, dense=2.0, ill=4.0)      # log10 of the condition number of the precision of q (eigenvalues 1 .. 10^x)
+
+
+def qu_raw(dist, qclass, M, bp, g, prior=None):
+    """parameters of the q-class in the coordinates of the strategy.  prior: (mean, covariance) of the prior in those coordinates
+    (None: N(0, I), the whitened strategies).  nearprior: the prior, perturbed by 1e-2 (mean) / 1e-3 (covariance factor);
+    diag: diagonal precision with entries 1..1e2; dense: dense precision (random orthogonal eigenvectors) with eigenvalues 1..1e2;
+    ill: the same with eigenvalues 1..1e4 (diagonal for a mean-field module)."""
+    bp = tuple(bp)
+    I = eye(M).expand(*bp, M, M)
+    if qclass == "nearprior":
+        m0, S0 = prior if prior is not None else (torch.zeros(*bp, M, dtype=D), I)
+        m0, S0 = m0.expand(*bp, M), S0.expand(*bp, M, M)
+        E = I + 1e-3 * torch.randn(*bp, M, M, generator=g, dtype=D)
+        m = m0 + 1e-2 * torch.randn(*bp, M, generator=g, dtype=D)
+        S = E @ S0 @ E.transpose(-1, -2)
+    else:
+        lam = torch.logspace(0, QU_SPECTRUM[qclass], M, dtype=D)
+        lam = torch.stack([lam[torch.randperm(M, generator=g)] for _ in range(int(torch.Size(bp).numel()))]).reshape(*bp, M)
+        if qclass == "diag" or dist == "MeanField":
+            Qm = I
+        else:
+            Qm, _ = torch.linalg.qr(torch.randn(*bp, M, M, generator=g, dtype=D))
+        S = Qm @ torch.diag_embed(1.0 / lam) @ Qm.transpose(-1, -2)
+        m = torch.randn(*bp, M, generator=g, dtype=D) * 0.7
+    S = 0.5 * (S + S.transpose(-1, -2))
+    if dist == "MeanField":
+        S = torch.diag_embed(S.diagonal(dim1=-1, dim2=-2))
+    raw = raw_from_moments(dist, m, S)
+    if dist == "Natural":
+        raw = (raw[0], 0.5 * (raw[1] + raw[1].transpose(-1, -2)))
+    return raw
+
+
 # ------------------------------------------------------------------------------------------------------------------
 # the closed forms of the property
 def qf_closed(mx, Kxx, Kxz, Kzz, mz, mu, Su):
